@@ -744,7 +744,29 @@ Proof.
   - apply base_cell; [|exact Hb]. exact (denotes_explicit tbl n d _ Hd).
 Qed.
 
-(* ----------------------------- BUT MAT=0 keeps the inherited density *)
+(* ------------------------- BUT MAT=0: the copy is the explicit void card *)
+Section VoidOverride.
+  Context {T : Type}.
+
+  (* the dictionary of the explicit card: MAT and RHO exist in BUT lists only *)
+  Definition drop_mat_rho (k : kws (T:=T)) : kws :=
+    mkKws (k_imp k) (k_fb k) (k_fu k) (k_fp k) (k_lat k) (k_trcl k) (k_u k) None None.
+
+  (* a cell whose dictionary says MAT=m with int(m) = 0 is the cell of the void
+     card "m <geometry> <the other keywords>": material token m, no density *)
+  Lemma finish_cell_void (e : env (T:=T)) rank lat mid rho ast (k : kws (T:=T)) m :
+    k_mat k = Some m -> pyint m = Some 0%Z ->
+    finish_cell e rank lat mid rho ast k = finish_cell e rank lat m None ast (drop_mat_rho k).
+  Proof.
+    intros Hm H0. unfold finish_cell, drop_mat_rho. cbn [k_imp k_u k_mat k_rho k_fp k_lat k_trcl].
+    rewrite Hm, H0.
+    destruct (match k_imp k with Some v => Ok v | None =>
+                match nth_error (imps e) rank with Some v => Ok v | None => Err EParse end end);
+      [|reflexivity].
+    cbn [bind]. reflexivity.
+  Qed.
+End VoidOverride.
+
 Section WitnessVoid.
   Context {T : Type} (SC : Scalar T) (v0 v1 : T).
 
@@ -753,29 +775,9 @@ Section WitnessVoid.
 
   Lemma witness_void_like :
     parse_one_cell SC 2 (wenv v0 v1) vtbl 1 None ("", " like 1 but", " mat=0") =
-    Ok (mkCell "0" (Some "-1.0") " -1 " v1 0%Z None None None None).
-  Proof. vm_compute. reflexivity. Qed.
-
-  (* the void card it abbreviates has no density *)
-  Lemma witness_void_explicit :
-    parse_one_cell SC 2 (wenv v0 v1) vtbl 1 None (" 0", " -1 ", "imp:n=1") =
-    Ok (mkCell "0" None " -1 " v1 0%Z None None None None).
+    parse_one_cell SC 2 (wenv v0 v1) vtbl 1 None (" 0", " -1 ", "imp:n=1").
   Proof. vm_compute. reflexivity. Qed.
 End WitnessVoid.
-
-Theorem like_mat_void_refuted :
-  exists (e : env (T:=R)) (tbl : table) (c_like c_expl : cell (T:=R)),
-    lookup 1%Z tbl = Some (" 1 -1.0", " -1 ", "imp:n=1") /\
-    parse_one_cell RS 2 e tbl 1 None ("", " like 1 but", " mat=0") = Ok c_like /\
-    parse_one_cell RS 2 e tbl 1 None (" 0", " -1 ", "imp:n=1") = Ok c_expl /\
-    c_mat c_like = "0" /\ c_mat c_expl = "0" /\
-    c_rho c_like = Some "-1.0" /\ c_rho c_expl = None.
-Proof.
-  exists (wenv 0%R 1%R), vtbl. eexists. eexists. split; [reflexivity|].
-  split; [apply (witness_void_like RS 0%R 1%R)|].
-  split; [apply (witness_void_explicit RS 0%R 1%R)|].
-  repeat split; reflexivity.
-Qed.
 
 (* ------------------------------------------------- LIKE_RE on split's text *)
 Lemma digit_not_ws c : is_digit c = true -> is_ws c = false.
@@ -1075,4 +1077,245 @@ Theorem like_in_parse_all {T} (SC : Scalar T) (e : env (T:=T)) tbl rank lat mat0
 Proof.
   intros Hg Hd. apply (like_equals_expanded_text SC e tbl _ rank lat mat0 g0 o n d x Hg Hd).
   eapply denotes_depth; eassumption.
+Qed.
+
+(* LIKE n BUT ... MAT=0 ...: the copy is the void card *)
+Theorem like_mat_void_R (e : env (T:=R)) tbl fuel rank lat mat0 g0 o n d mx gx ox kb ko m :
+  search_like (lower g0) = Some n -> denotes tbl n d (mx, gx, ox) -> (d < fuel)%nat ->
+  sq_state false ox = false -> leads_colon o = false -> kw_head (tokenize o) ->
+  parse_kws RS e (tokenize ox) = Ok kb -> parse_kws RS e (tokenize o) = Ok ko ->
+  (forall v w, k_imp ko = Some v -> k_imp kb = Some w -> (w <= v)%R) ->
+  k_mat ko = Some m -> pyint m = Some 0%Z ->
+  parse_one_cell RS fuel e tbl rank lat (mat0, g0, o) =
+  (parse_material e mx >>= fun _ =>
+   match getast e gx with
+   | None => Err EParse
+   | Some ast => finish_cell e rank lat m None ast (drop_mat_rho (override kb ko))
+   end).
+Proof.
+  intros Hg Hd Hf Hox Ho Hk Hb Hko Hi Hm H0.
+  destruct (like_equals_expanded_full e tbl fuel rank lat mat0 g0 o n d mx gx ox kb ko
+              Hg Hd Hf Hox Ho Hk Hb Hko Hi) as [H _].
+  rewrite H. destruct (parse_material e mx) as [[mid rho]|]; [|reflexivity].
+  cbn [bind]. destruct (getast e gx); [|reflexivity].
+  apply finish_cell_void; [|exact H0]. unfold override; cbn. rewrite Hm. reflexivity.
+Qed.
+(* ---- replacing a LIKE card by its expansion leaves parse_all unchanged ---- *)
+Local Open Scope list_scope.
+Lemma lookup_app n (a b : table) :
+  lookup n (a ++ b) = match lookup n b with Some c => Some c | None => lookup n a end.
+Proof.
+  induction a as [|[m c] r IH]; cbn.
+  - destruct (lookup n b); reflexivity.
+  - rewrite IH. destruct (lookup n b); reflexivity.
+Qed.
+
+Lemma lookup_none n (t : table) : ~ In n (map fst t) -> lookup n t = None.
+Proof.
+  induction t as [|[m c] r IH]; cbn; intros H; [reflexivity|].
+  rewrite IH by tauto. destruct (n =? m)%Z eqn:E; [|reflexivity].
+  apply Z.eqb_eq in E. subst. tauto.
+Qed.
+
+Lemma denotes_inv tbl j dj xj c : denotes tbl j dj xj -> lookup j tbl = Some c ->
+  is_explicit c \/
+  exists mat g o' m d' x', c = (mat, g, o') /\ search_like (lower g) = Some m /\ denotes tbl m d' x'.
+Proof.
+  intros H Hl. destruct H as [j c0 Hl0 Hc0|j m mat g o' d' x' Hl0 Hs Hd'].
+  - rewrite Hl in Hl0. inversion Hl0; subst. left. exact Hc0.
+  - rewrite Hl in Hl0. inversion Hl0; subst. right. exists mat, g, o', m, d', x'. auto.
+Qed.
+
+Section Replace.
+  Variables (pre post : table) (k : Z) (ck xk : card).
+  Let tbl := pre ++ (k, ck) :: post.
+  Let tbl' := pre ++ (k, xk) :: post.
+  Hypothesis Hnd : NoDup (map fst tbl).
+
+  Lemma nodup_parts : ~ In k (map fst pre) /\ ~ In k (map fst post).
+  Proof.
+    unfold tbl in Hnd. rewrite map_app in Hnd. cbn in Hnd.
+    pose proof (NoDup_remove_2 _ _ _ Hnd) as H2.
+    rewrite in_app_iff in H2. tauto.
+  Qed.
+
+  Lemma lookup_k : lookup k tbl = Some ck /\ lookup k tbl' = Some xk.
+  Proof.
+    destruct nodup_parts as (H1 & H2).
+    unfold tbl, tbl'. rewrite !lookup_app. cbn.
+    rewrite (lookup_none k post H2), Z.eqb_refl. split; reflexivity.
+  Qed.
+
+  Lemma lookup_other j : j <> k -> lookup j tbl' = lookup j tbl.
+  Proof.
+    intros Hj. unfold tbl, tbl'. rewrite !lookup_app. cbn.
+    destruct (lookup j post); [reflexivity|].
+    apply Z.eqb_neq in Hj. rewrite Hj. reflexivity.
+  Qed.
+
+  Lemma length_same : List.length tbl' = List.length tbl.
+  Proof. unfold tbl, tbl'. rewrite !app_length. reflexivity. Qed.
+
+  (* the replaced card: LIKE n BUT o, and its expansion *)
+  Variables (mat0 g0 o : string) (n : Z) (d : nat) (x : card).
+  Hypothesis Hck : ck = (mat0, g0, o).
+  Hypothesis Hg : search_like (lower g0) = Some n.
+  Hypothesis Hden : denotes tbl n d x.
+  Hypothesis Hxk : xk = apply_but x o.
+
+  Lemma xk_explicit : is_explicit xk.
+  Proof.
+    rewrite Hxk. unfold is_explicit. rewrite apply_but_geom.
+    exact (denotes_explicit tbl n d x Hden).
+  Qed.
+
+  (* every cell stands for the same explicit card in both tables *)
+  Lemma denotes_transfer j dj xj : denotes tbl j dj xj -> exists dj', denotes tbl' j dj' xj.
+  Proof.
+    induction 1 as [j c Hl Hc|j m mat g o' d' x' Hl Hs Hd IH].
+    - assert (Hj : j <> k).
+      { intros ->. destruct lookup_k as [Hk _]. rewrite Hk in Hl. inversion Hl; subst c.
+        rewrite Hck in Hc. unfold is_explicit, geom_of in Hc. cbn [fst snd] in Hc. congruence. }
+      exists 0%nat. constructor; [|exact Hc]. rewrite lookup_other; assumption.
+    - destruct IH as [d'' IH].
+      destruct (Z.eq_dec j k) as [->|Hj].
+      + destruct lookup_k as [Hk Hk']. rewrite Hk in Hl. rewrite Hck in Hl.
+        inversion Hl; subst mat g o'. rewrite Hg in Hs. inversion Hs; subst m.
+        destruct (denotes_fun tbl n d x Hden _ _ Hd) as [_ <-].
+        exists 0%nat. rewrite <- Hxk. apply den_explicit; [exact Hk'|exact xk_explicit].
+      + exists (S d''). apply (den_like tbl' j m mat g o' d'' x'); [|exact Hs|exact IH].
+        rewrite lookup_other; assumption.
+  Qed.
+
+  Context {T : Type} (SC : Scalar T) (e : env (T:=T)).
+
+  (* a card of the table that is not the replaced one *)
+  Lemma cell_same j c rank lat :
+    j <> k -> lookup j tbl = Some c -> (exists dj xj, denotes tbl j dj xj) ->
+    parse_one_cell SC (List.length tbl) e tbl rank lat c =
+    parse_one_cell SC (List.length tbl') e tbl' rank lat c.
+  Proof.
+    intros Hj Hl (dj & xj & Hd).
+    destruct (denotes_inv tbl j dj xj c Hd Hl) as [Hc'|(mat & g & o' & m & d' & x' & -> & Hs & Hd')].
+    - rewrite !explicit_cell by exact Hc'. reflexivity.
+    - destruct (denotes_transfer m d' x' Hd') as [d'' Hd''].
+      rewrite (like_in_parse_all SC e tbl rank lat mat g o' m d' x' Hs Hd').
+      rewrite (like_in_parse_all SC e tbl' rank lat mat g o' m d'' x' Hs Hd'').
+      reflexivity.
+  Qed.
+
+  (* the replaced card itself *)
+  Lemma cell_replaced rank lat :
+    parse_one_cell SC (List.length tbl) e tbl rank lat ck =
+    parse_one_cell SC (List.length tbl') e tbl' rank lat xk.
+  Proof.
+    rewrite Hck.
+    rewrite (like_in_parse_all SC e tbl rank lat mat0 g0 o n d x Hg Hden).
+    rewrite (explicit_cell SC e tbl' _ rank lat xk xk_explicit). rewrite Hxk. reflexivity.
+  Qed.
+
+  Hypothesis Hall : forall j c, In (j, c) tbl -> exists dj xj, denotes tbl j dj xj.
+
+  Lemma lookup_nodup_in (t : table) j c : NoDup (map fst t) -> In (j, c) t -> lookup j t = Some c.
+  Proof.
+    induction t as [|[m c'] r IH]; cbn; intros Hn Hi; [tauto|].
+    inversion Hn as [|? ? Hnot Hn']; subst.
+    destruct Hi as [Hi|Hi].
+    - inversion Hi; subst. rewrite (lookup_none j r Hnot), Z.eqb_refl. reflexivity.
+    - rewrite (IH Hn' Hi). reflexivity.
+  Qed.
+
+  Lemma cells_same (todo : table) : forall rank,
+    (forall j c, In (j, c) todo -> In (j, c) tbl /\ j <> k) ->
+    parse_cells SC e tbl rank todo = parse_cells SC e tbl' rank todo.
+  Proof.
+    induction todo as [|[j c] r IH]; intros rank H; [reflexivity|].
+    cbn [parse_cells]. destruct (H j c (or_introl eq_refl)) as [Hin Hj].
+    rewrite (cell_same j c rank (latopt e j) Hj (lookup_nodup_in tbl j c Hnd Hin) (Hall j c Hin)).
+    rewrite IH by (intros j' c' Hi; apply H; right; exact Hi). reflexivity.
+  Qed.
+
+  Lemma cells_replace (pre0 : table) : forall rank,
+    (forall j c, In (j, c) pre0 -> In (j, c) tbl /\ j <> k) ->
+    (forall j c, In (j, c) post -> In (j, c) tbl /\ j <> k) ->
+    parse_cells SC e tbl rank (pre0 ++ (k, ck) :: post) =
+    parse_cells SC e tbl' rank (pre0 ++ (k, xk) :: post).
+  Proof.
+    induction pre0 as [|[j c] r IH]; intros rank Hpre Hpost.
+    - cbn [app parse_cells]. rewrite (cell_replaced rank (latopt e k)).
+      rewrite (cells_same post (S rank) Hpost). reflexivity.
+    - cbn [app parse_cells]. destruct (Hpre j c (or_introl eq_refl)) as [Hin Hj].
+      rewrite (cell_same j c rank (latopt e j) Hj (lookup_nodup_in tbl j c Hnd Hin) (Hall j c Hin)).
+      rewrite IH; [reflexivity| |exact Hpost].
+      intros j' c' Hi. apply Hpre. right. exact Hi.
+  Qed.
+
+  Theorem replace_like_card : parse_all SC e tbl' = parse_all SC e tbl.
+  Proof.
+    destruct nodup_parts as (H1 & H2).
+    unfold parse_all. symmetry. unfold tbl at 2, tbl' at 2. apply cells_replace.
+    - intros j c Hi. split.
+      + unfold tbl. apply in_or_app. left. exact Hi.
+      + intros ->. apply H1. apply (in_map fst) in Hi. exact Hi.
+    - intros j c Hi. split.
+      + unfold tbl. apply in_or_app. right. right. exact Hi.
+      + intros ->. apply H2. apply (in_map fst) in Hi. exact Hi.
+  Qed.
+
+  (* the hypotheses survive the replacement: the LIKE cards of a deck can be
+     expanded one after the other *)
+  Lemma replace_keeps_keys : map fst tbl' = map fst tbl.
+  Proof. unfold tbl, tbl'. rewrite !map_app. reflexivity. Qed.
+
+  Lemma replace_keeps_chains : forall j c, In (j, c) tbl' -> exists dj xj, denotes tbl' j dj xj.
+  Proof.
+    intros j c Hi. apply (in_map fst) in Hi. rewrite replace_keeps_keys in Hi.
+    apply in_map_iff in Hi. destruct Hi as [[j0 c0] [E Hi]]. cbn in E. subst j0.
+    destruct (Hall j c0 Hi) as (dj & xj & Hd).
+    destruct (denotes_transfer j dj xj Hd) as [dj' Hd']. exists dj', xj. exact Hd'.
+  Qed.
+End Replace.
+
+
+
+Theorem replace_like_card_full {T : Type} (SC : Scalar T) (e : env (T:=T))
+    (pre post : table) (k : Z) (mat0 g0 o : string) (n : Z) (d : nat) (x : card) :
+  let tbl := pre ++ (k, (mat0, g0, o)) :: post in
+  let tbl' := pre ++ (k, apply_but x o) :: post in
+  NoDup (map fst tbl) -> search_like (lower g0) = Some n -> denotes tbl n d x ->
+  (forall j c, In (j, c) tbl -> exists dj xj, denotes tbl j dj xj) ->
+  parse_all SC e tbl' = parse_all SC e tbl /\
+  NoDup (map fst tbl') /\
+  (forall j c, In (j, c) tbl' -> exists dj xj, denotes tbl' j dj xj).
+Proof.
+  intros tbl tbl' Hnd Hg Hd Hall. split; [|split].
+  - exact (replace_like_card pre post k _ _ Hnd mat0 g0 o n d x eq_refl Hg Hd eq_refl SC e Hall).
+  - unfold tbl'. rewrite (replace_keeps_keys pre post k (mat0, g0, o) (apply_but x o)). exact Hnd.
+  - exact (replace_keeps_chains pre post k _ _ Hnd mat0 g0 o n d x eq_refl Hg Hd eq_refl Hall).
+Qed.
+
+(* the hypotheses hold on the three-card table of the example (card 2 replaced) *)
+Lemma example_replace_hyps :
+  let tbl := [(1%Z, (" 1 -1.0", " -1 ", "imp:n=0"))] ++
+             (2%Z, ("", " like 1 but", " MAT=2 imp:n=1")) ::
+             [(3%Z, ("", " LIKE 2 BUT", " rho = -2.5 *TRCL=( 0 )"))] in
+  tbl = xtbl /\ NoDup (map fst tbl) /\ search_like (lower " like 1 but") = Some 1%Z /\
+  denotes tbl 1 0 (" 1 -1.0", " -1 ", "imp:n=0") /\
+  (forall j c, In (j, c) tbl -> exists dj xj, denotes tbl j dj xj).
+Proof.
+  cbv zeta.
+  assert (H1 : denotes xtbl 1 0 (" 1 -1.0", " -1 ", "imp:n=0")).
+  { apply den_explicit; vm_compute; reflexivity. }
+  assert (H2 : denotes xtbl 2 1 (apply_but (" 1 -1.0", " -1 ", "imp:n=0") " MAT=2 imp:n=1")).
+  { eapply den_like with (m := 1%Z) (mat := "") (g := " like 1 but");
+      [vm_compute; reflexivity|vm_compute; reflexivity|exact H1]. }
+  split; [reflexivity|]. split.
+  { cbn. repeat constructor; cbn; intuition discriminate. }
+  split; [vm_compute; reflexivity|]. split; [exact H1|].
+  intros j c Hi. cbn in Hi. destruct Hi as [Hi|[Hi|[Hi|[]]]]; inversion Hi; subst.
+  - eexists; eexists; exact H1.
+  - eexists; eexists; exact H2.
+  - eexists; eexists.
+    eapply den_like with (m := 2%Z) (mat := "") (g := " LIKE 2 BUT");
+      [vm_compute; reflexivity|vm_compute; reflexivity|exact H2].
 Qed.
